@@ -1,12 +1,14 @@
 package c01
 
 import (
+	"encoding/json"
 	"fmt"
 	"math"
 	"math/rand"
 	"regexp"
 	"strconv"
 	"strings"
+	"time"
 
 	"github.com/robfig/soy/data"
 
@@ -109,4 +111,100 @@ func FloatTextFamily(ctx *core.Ctx) {
 		ctx.Distinct(fmt.Sprint("F9:", math.Float64bits(f)))
 	}
 	ctx.Extra["F9_float_text_cases"] = n
+}
+
+// NaNFamily (F10): SoyNaN.tla states what the language fixes for the
+// not-a-number float (unordered under every comparison, != true, falsy) and
+// exports every (operator, operand, operand) and condition case; NaN is
+// spelled ($z / $z) with $z = 0 and the cases are rendered by the real code.
+func NaNFamily(ctx *core.Ctx) {
+	cfg := func(dev string, emit bool) string {
+		s := "CONSTANT Dev = {" + dev + "}\nINIT Init\nNEXT Next\nINVARIANT NaNUnordered\nINVARIANT NaNFalsy\nCHECK_DEADLOCK FALSE\n"
+		if emit {
+			s += "INVARIANT EmitCase\n"
+		}
+		return s
+	}
+	res, err := ctx.RunTLC(core.TLCOpts{Module: "SoyNaN", Cfg: cfg("", true), Workers: 1, Timeout: 3 * time.Minute, Label: "nan-reference"})
+	if err != nil {
+		ctx.ToolError("%v", err)
+		return
+	}
+	if res.Violated != "" {
+		ctx.ToolError("SoyNaN reference violates %s", res.Violated)
+		return
+	}
+	for _, dev := range []string{"nan_counts_as_equal", "nan_truthy"} {
+		r, err := ctx.RunTLC(core.TLCOpts{Module: "SoyNaN", Cfg: cfg(`"`+dev+`"`, false), Workers: 1, Timeout: 3 * time.Minute, Label: "nan-deviation-" + dev})
+		if err != nil {
+			ctx.ToolError("%v", err)
+			continue
+		}
+		if r.Violated == "" {
+			ctx.ToolError("SoyNaN deviation %s not caught", dev)
+		}
+	}
+	spell := map[string]string{"nan": "($z / $z)", "zero": "$z", "one": "1", "minus": "-1", "half": "0.5"}
+	ops := map[string]string{"lt": "<", "le": "<=", "gt": ">", "ge": ">=", "eq": "==", "ne": "!="}
+	n := 0
+	for _, p := range res.Printed {
+		if !strings.HasPrefix(p, "{") {
+			continue
+		}
+		var c struct {
+			C struct {
+				Kind, Op, A, B string
+			} `json:"c"`
+			Exp bool `json:"exp"`
+		}
+		if err := json.Unmarshal([]byte(p), &c); err != nil {
+			ctx.ToolError("bad JSON from SoyNaN: %v", err)
+			return
+		}
+		a := spell[c.C.A]
+		var body, want string
+		tf := map[bool]string{true: "true", false: "false"}
+		switch c.C.Kind {
+		case "cmp":
+			body, want = "{"+a+" "+ops[c.C.Op]+" "+spell[c.C.B]+"}|{$w "+ops[c.C.Op]+" "+spell[c.C.B]+"}", tf[c.Exp]
+			if c.C.A != "nan" {
+				body = "{" + a + " " + ops[c.C.Op] + " " + spell[c.C.B] + "}|{" + a + " " + ops[c.C.Op] + " " + strings.ReplaceAll(spell[c.C.B], "($z / $z)", "$w") + "}"
+			}
+			want = want + "|" + want
+		case "tern":
+			body, want = "{"+a+" ? 'true' : 'false'}", tf[c.Exp]
+		case "not":
+			body, want = "{not "+a+"}", tf[c.Exp]
+		case "if":
+			body, want = "{if "+a+"}true{else}false{/if}", tf[c.Exp]
+		case "and":
+			body, want = "{("+a+" and true) ? 'true' : 'false'}", tf[c.Exp]
+		case "or":
+			body, want = "{("+a+" or false) ? 'true' : 'false'}", tf[c.Exp]
+		}
+		src := "{namespace t}\n/** @param z\n @param w */\n{template .m autoescape=\"false\"}\n" + body + "{if $w or $z}{/if}\n{/template}\n"
+		comp, cerr, _ := core.Compile([]core.File{{Name: "t.soy", Text: src}}, nil)
+		ctx.AddEvals(1)
+		if cerr != nil {
+			ctx.Violation(core.Sig{Family: "F10-nan", Feature: "compile-reject"}, "valid expression rejected: "+body+": "+cerr.Error(), map[string]interface{}{"src": src})
+			continue
+		}
+		for _, z := range []data.Value{data.Int(0), data.Float(0)} {
+			r := comp.Render("t.m", data.Map{"z": z, "w": data.Float(math.NaN())}, nil)
+			n++
+			ctx.AddTraces(1)
+			switch {
+			case r.Err != nil:
+				ctx.Violation(core.Sig{Family: "F10-nan", Feature: "unexpected-error,kind=" + c.C.Kind + ",op=" + c.C.Op}, fmt.Sprintf("%s with $z = %v: %v", body, z, r.Err), map[string]interface{}{"src": src})
+			case r.Out != want:
+				ctx.Violation(core.Sig{Family: "F10-nan", Feature: "wrong-text,kind=" + c.C.Kind + ",op=" + c.C.Op + ",a=" + c.C.A + ",b=" + c.C.B},
+					fmt.Sprintf("%s with $z = %v ($w = NaN as data) renders %q; the language says %q (NaN is unordered, != to everything, falsy)", body, z, r.Out, want), map[string]interface{}{"src": src})
+			}
+		}
+		ctx.Distinct("F10:" + body)
+	}
+	if n == 0 {
+		ctx.ToolError("SoyNaN exported no cases")
+	}
+	ctx.Extra["F10_nan_cases"] = n
 }
